@@ -57,7 +57,8 @@ def main():
             detected = False
             for chk in EXTRA.get(sd.name, [pid]):
                 rc, viol, und = run_check(chk, scratch)
-                results[chk] = {"exit": rc, "violations": len(viol), "undecided": len(und), "first": (viol or und or [""])[0][:200]}
+                results[chk] = {"exit": rc, "violations": len(viol), "undecided": len(und), "first": (viol or und or [""])[0][:200],
+                                "tiers": sorted({"B" if "-bounded-" in v else "S" for v in viol})}
                 detected = detected or rc == 1
             report[sd.name] = {"status": "detected" if detected else "MISSED", "checks": results}
             ok = ok and detected
